@@ -1064,6 +1064,11 @@ def _do_edit(sim, cl, i, op, g):
     nodes = list(h.nodes)
     edges = list(h.edges)
     Y, Z = T.Y, T.Z
+    if how == "del_atom" and len(nodes) > 1:
+        # a sub-molecule whose labels are no longer 0..n-1
+        h.remove_node(nodes[r.randrange(len(nodes))])
+        nodes = list(h.nodes)
+        edges = list(h.edges)
     if how in ("chg", "all"):
         for n in nodes:
             if r.random() < 0.5:
